@@ -306,8 +306,7 @@ def value_range(kind, w):
 class C07(Prop):
     id = "C07"
     module = "C07"
-    theorems = ["C07_put_bits", "C07_put_overflow"]
-    partial_note = "partial (in progress): the write half (exact bits, nothing else touched, no panic, overflow) is proved; the read half and the round trip are covered by the correspondence and the probes"
+    theorems = ["C07_put_bits", "C07_put_overflow", "C07_parse_bits", "C07_roundtrip", "C07_parse_overflow", "C07_no_panic"]
     rule = ("PUT/PARSE through the hook: 12 carrier kinds x widths 1..carrier x offsets 0..79 x values {boundary, one-hot, random; all values for widths <= 6 (thorough: <= 12)} "
             "x backgrounds {zeros, ones, random}, and reads/writes ending 1..16 bits past the end of the buffer; non-trivial = distinct operations")
 
